@@ -88,9 +88,19 @@ def make_reader(src, ignore_comments=True, file_path=None, **kw):
     return FortranStringReader(src, ignore_comments=ignore_comments, **kw)
 
 
-def parse(src, std="f2003", ignore_comments=True, file_path=None, **kw):
-    """create(std) then parse; returns the tree or raises whatever fparser raises."""
-    parser = ParserFactory().create(std=std)
+_last_std = [None]
+
+
+def parse(src, std="f2003", ignore_comments=True, file_path=None, reuse_parser=False, **kw):
+    """create(std) then parse; returns the tree or raises whatever fparser raises.
+    reuse_parser=True skips create() when the previous parse of this process used the same standard (the symbol
+    tables are cleared instead); used only where thousands of tiny inputs are parsed in a row."""
+    if reuse_parser and _last_std[0] == std:
+        SYMBOL_TABLES.clear()
+        parser = F03.Program
+    else:
+        parser = ParserFactory().create(std=std)
+        _last_std[0] = std
     reader = make_reader(src, ignore_comments=ignore_comments, file_path=file_path, **kw)
     return parser(reader)
 
